@@ -19,9 +19,15 @@ PRELUDE = r'''package main
 
 import (
 	"bufio"
+	"container/list"
+	"context"
 	"fmt"
 	"os"
 	"runtime/debug"
+	"runtime/pprof"
+	"runtime/trace"
+	"sort"
+	"sync"
 )
 
 type T struct {
@@ -129,6 +135,25 @@ func Gapply[X any](x X, f func(X) X) X {
 	return r
 }
 
+
+// ---- call-free single-block accessors: analysed in one context per static call site; the points-to set of *p is what the
+// dataflow layer reads through PointerAnalysis.IndirectQueries[p]
+func acc1(p **T) *T                            { return *p }
+func acc2(p *[]*T) []*T                        { return *p }
+func acc3(p *map[string]*T) map[string]*T      { return *p }
+func acc4(p **T, x *T)                         { *p = x }
+
+func iobsT(id int, p *T) { fmt.Fprintf(out, "P %d T %p\n", id, p) }
+func iobsS(id int, s []*T) {
+	if len(s) > 0 {
+		fmt.Fprintf(out, "P %d S %p\n", id, s)
+	}
+}
+func iobsM(id int, m map[string]*T) { fmt.Fprintf(out, "P %d M %p\n", id, m) }
+
+type ctxKey struct{ n int }
+
+var pool sync.Pool
 
 // ---- values of several words: structs and arrays passed, returned, merged and stored BY VALUE
 type S2 struct{ p, q *T }
@@ -810,9 +835,85 @@ class Gen:
                     em("%sprobeT(%d, %s)" % (ind, i, v))
 
         def stmt(ind, depth):
-            c = rnd(30)
+            c = rnd(40)
             x, y, z = T(), T(), T()
-            if c == 0:
+            def res(ind2, expr, guard=False):
+                """fresh single-assignment local holding the result, probed at once (the scenario variables are merged cells)"""
+                n = fresh()
+                i = self.nid("probe")
+                self.meta["probes"][i] = "T"
+                em("%srv%d := %s" % (ind2, n, expr))
+                em("%sprobeT(%d, rv%d)" % (ind2, i, n))
+                if guard:
+                    em("%sif rv%d != nil {\n%s\t%s = rv%d\n%s}" % (ind2, n, ind2, x, n, ind2))
+                else:
+                    em("%s%s = rv%d" % (ind2, x, n))
+
+            if c == 30:
+                # accessor analysed once per static call site; *p differs per site (fresh cell holding one fresh object)
+                n = fresh()
+                em("%slp%d := %s" % (ind, n, alloc("T", "&T{next: %s}" % y, ind)))
+                em("%s%s = acc1(&lp%d)" % (ind, x, n))
+                em("%siobsT(900001, %s)" % (ind, x))
+                em("%slq%d := fb" % (ind, n))
+                em("%sacc4(&lq%d, %s)" % (ind, n, alloc("T", "&T{a: 7}", ind)))
+                em("%siobsT(900004, lq%d)" % (ind, n))
+                em("%s%s = acc1(&%s)" % (ind, z, y))
+                em("%siobsT(900001, %s)" % (ind, z)); self.feat("indirect-accessor")
+            elif c == 31:
+                n = fresh()
+                em("%ssl%d := %s" % (ind, n, alloc("S", "make([]*T, 2)", ind)))
+                em("%ssl%d[0], sl%d[1] = %s, %s" % (ind, n, n, y, z))
+                em("%sgs%d := acc2(&sl%d)" % (ind, n, n))
+                em("%siobsS(900002, gs%d)" % (ind, n))
+                em("%s%s = gs%d[1]" % (ind, x, n)); self.feat("indirect-accessor")
+            elif c == 32:
+                n = fresh()
+                em("%smm%d := %s" % (ind, n, alloc("M", "make(map[string]*T)", ind)))
+                em('%smm%d["a"] = %s' % (ind, n, y))
+                em("%sgm%d := acc3(&mm%d)" % (ind, n, n))
+                em("%siobsM(900003, gm%d)" % (ind, n))
+                em('%s%s = gm%d["a"]' % (ind, x, n)); fix(x, ind); self.feat("indirect-accessor")
+            elif c == 33:
+                n = fresh()
+                em("%sctx%d := context.WithValue(context.Background(), ctxKey{%d}, %s)" % (ind, n, n, alloc("T", "&T{a: 33}", ind)))
+                em('%sctx%db, task%d := trace.NewTask(ctx%d, "t")' % (ind, n, n, n))
+                res(ind, "ctx%db.Value(ctxKey{%d}).(*T)" % (n, n))
+                em("%stask%d.End()" % (ind, n)); self.feat("std-flow:trace.NewTask")
+            elif c == 34:
+                n = fresh()
+                em("%sctx%d := context.WithValue(context.Background(), ctxKey{%d}, %s)" % (ind, n, n, alloc("T", "&T{a: 34}", ind)))
+                em('%spprof.Do(ctx%d, pprof.Labels("k", "v"), func(c context.Context) {\n%s\tenter("%s$%d")' % (ind, n, ind, name, n))
+                res(ind + "\t", "c.Value(ctxKey{%d}).(*T)" % n)
+                em("%s})" % ind); self.feat("std-flow:pprof.Do")
+            elif c == 35:
+                em("%spool.Put(%s)" % (ind, alloc("T", "&T{a: 35}", ind)))
+                n = fresh()
+                em("%spv%d, _ := pool.Get().(*T)" % (ind, n))
+                res(ind, "pv%d" % n, guard=True); self.feat("std-flow:sync.Pool")
+            elif c == 36:
+                n = fresh()
+                em("%sss%d := []*T{%s, %s, %s}" % (ind, n, alloc("T", "&T{a: 36}", ind), alloc("T", "&T{a: 3}", ind), alloc("T", "&T{a: 6}", ind)))
+                em('%ssort.Slice(ss%d, func(i, j int) bool {\n%s\tenter("%s$%d")' % (ind, n, ind, name, n))
+                res(ind + "\t", "ss%d[i]" % n)
+                em("%s\treturn ss%d[i].a < ss%d[j].a\n%s})" % (ind, n, n, ind)); self.feat("std-flow:sort.Slice")
+            elif c == 37:
+                n = fresh()
+                em("%sli%d := list.New()" % (ind, n))
+                em("%sli%d.PushBack(%s)" % (ind, n, alloc("T", "&T{a: 37}", ind)))
+                em("%sli%d.PushFront(%s)" % (ind, n, z))
+                res(ind, "li%d.Back().Value.(*T)" % n); self.feat("std-flow:container/list")
+            elif c == 38:
+                n = fresh()
+                em("%svar once%d sync.Once" % (ind, n))
+                em('%sonce%d.Do(func() {\n%s\tenter("%s$%d")\n%s\t%s = %s\n%s})' % (ind, n, ind, name, n, ind, x, y, ind)); self.feat("std-flow:sync.Once")
+            elif c == 39:
+                n = fresh()
+                em("%sctx%d, cancel%d := context.WithCancel(context.WithValue(context.Background(), ctxKey{%d}, %s))" %
+                   (ind, n, n, n, alloc("T", "&T{a: 39}", ind)))
+                res(ind, "ctx%d.Value(ctxKey{%d}).(*T)" % (n, n))
+                em("%scancel%d()" % (ind, n)); self.feat("std-flow:context")
+            elif c == 0:
                 call(ind, "static-byvalue", "%s = pickS(S2{p: %s, q: %s}, S2{p: %s, q: fb}).p" % (x, y, z, z)); self.feat("phi-struct")
             elif c == 1:
                 call(ind, "static-byvalue", "%s = pickA(Arr{%s, %s}, Arr{%s, %s})[1]" % (x, y, z, z, y)); self.feat("phi-array")
@@ -1034,6 +1135,11 @@ def parse_dump(text):
             d["ma"][(int(p[1]), int(p[2]))] = p[3]
         elif k == "NOEFF":
             d["noeff"].append((p[1], p[2], p[3] if len(p) > 3 else ""))
+            d.setdefault("noeff_flags", {})[p[1]] = (p[2], p[4] if len(p) > 4 else "?", p[5] if len(p) > 5 else "?")
+        elif k == "EXEMPT":
+            d.setdefault("exempt", []).append(" ".join(p[1:]))
+        elif k == "EXEMPTDONE":
+            d.setdefault("exempt", [])
     return d
 
 
@@ -1519,6 +1625,32 @@ def check_noeffect_errno(chk, work):
     return info
 
 
+def audit_intrinsics(chk, pr, found_concrete):
+    """T-gen style structural audit of internal/pointer/intrinsics.go, regenerated from the source on every run:
+    (a) findIntrinsic's package-level exemption is exactly `path == "runtime"` (reflect is handled through package objects);
+    (b) no ext.NoEffect entry names a function of the loaded program that has a Go body and pointer-like results."""
+    dump = pr["dump"]
+    info = {"exemptions": dump.get("exempt"), "noeffect_entries_in_program": len(dump.get("noeff_flags", {}))}
+    if dump.get("exempt") is not None and sorted(dump["exempt"]) != ['eq_"runtime"']:
+        p = os.path.join(vlib.REPLAYS, "%s-intrinsic-exemptions.txt" % chk.prop)
+        os.makedirs(vlib.REPLAYS, exist_ok=True)
+        open(p, "w").write("internal/pointer/intrinsics.go findIntrinsic: the string tests deciding which functions generate no constraints "
+                           "are %s; expected exactly [eq \"runtime\"] (only package runtime itself is exempt; reflect is handled through "
+                           "package objects). Functions of other packages (e.g. runtime/trace, runtime/pprof) matched by a wider test lose "
+                           "all pointer flows through them.\n" % dump["exempt"])
+        chk.violation("intrinsic-exemptions", "findIntrinsic exempts more than package \"runtime\": %s" % dump["exempt"], p,
+                      no_input=not found_concrete)
+    bad = sorted(n for n, (cls, body, res) in dump.get("noeff_flags", {}).items() if body == "body" and res == "res-pointerlike" and cls != "unsafe")
+    info["noeffect_with_body_and_pointerlike_result"] = bad
+    for n in bad[:3]:
+        p = os.path.join(vlib.REPLAYS, "%s-intrinsic-table-%s.txt" % (chk.prop, re.sub(r"[^A-Za-z0-9_.]", "_", n)))
+        os.makedirs(vlib.REPLAYS, exist_ok=True)
+        open(p, "w").write("internal/pointer/intrinsics.go maps %s to ext.NoEffect although it has a Go body and pointer-like results: every "
+                           "value it returns gets an empty points-to set (cf. corpus/c12/noeffect_errno).\n" % n)
+        chk.violation("intrinsic-table:" + n, "no-effect intrinsic %s has a Go body and pointer-like results" % n, p, no_input=not found_concrete)
+    return info
+
+
 def common(chk, want):
     """shared driver of C11 (want='pts') and C12 (want='calls')"""
     import time
@@ -1644,6 +1776,8 @@ def common(chk, want):
             break
         chk.assumptions.append("config default for pointer-config.unsafe-no-effect-functions is empty; the check lists only generated leaf "
                                "functions that are alias-pure by construction")
+    if progs:
+        dist["intrinsics_audit"] = audit_intrinsics(chk, progs[0], found_concrete)
     if want == "calls":
         dist["noeffect_errno_case"] = check_noeffect_errno(chk, work)
         if progs:
